@@ -11,6 +11,7 @@
 package main
 
 import (
+	"flag"
 	"fmt"
 	"os"
 	"strings"
@@ -24,6 +25,7 @@ const (
 	shapeWbl  = "wal-repair-skips-wbl"
 	shapeRef  = "series-ref-reused-after-lost-series-record"
 	shapeOld  = "older-chunk-file-cut-at-chunk-boundary"
+	shapeDrop = "ooo-append-dropped-without-head-chunk"
 )
 
 type desc struct {
@@ -84,12 +86,17 @@ func segIdx(dir, sub string) []int64 {
 }
 
 func main() {
+	reproFlag := flag.Bool("repro", false, "run the four fixed reproducers of the findings in notes/C04.md and exit")
 	f := gallina.ParseFlags()
 	root, err := os.MkdirTemp(f.Out, "c04scratch")
 	if err != nil {
 		panic(err)
 	}
 	defer os.RemoveAll(root)
+	if *reproFlag {
+		repro(root)
+		return
+	}
 	thorough := f.Tier == "thorough"
 	meta := gallina.NewMeta("C04", f.Seed, f.Tier)
 	meta.Rule = "one evaluation = one damaged copy of a generated database taken through open / query / append / close / open / query (3 cases = 3 aspects of the property); non-trivial = the damage changed the file and lies in the used part of it (not in preallocated space that is never read); distinct by (master, file, kind, offset, value)"
@@ -102,7 +109,7 @@ func main() {
 	}
 	nrand := 2
 	if thorough {
-		nrand = 15
+		nrand = 10
 	}
 	var masters []*master
 	var pre strings.Builder
@@ -243,6 +250,15 @@ func main() {
 						}
 						if all {
 							shapes[2] = shapeRef
+						}
+					}
+					// acknowledged but not stored: the known mechanism only concerns the out-of-order
+					// samples appended first (series whose head chunk is missing after the open)
+					if len(bm) > 0 && len(bx) == 0 && len(diff(bm, o.First)) == 0 {
+						if shapes[2] == shapeRef {
+							shapes[2] = shapeRef + "+" + shapeDrop
+						} else {
+							shapes[2] = shapeDrop
 						}
 					}
 					if t.role == "chunk-old" && d.Kind == kTrunc && o.Repair == "none" && len(c1miss) > 0 {
